@@ -1,4 +1,4 @@
-\* generator: every history of 4 calls over the 10 input classes
+\* generator: every history of 4 calls over the 10 input classes (design as repaired in 2d3ae16: __i is reset when an exception propagates)
 CONSTANTS
   Alphabet = {}
   MaxLen = 0
@@ -6,7 +6,7 @@ CONSTANTS
   MaxCalls = 4
   GenHist = TRUE
   RaiseAfterPrefix = TRUE
-  Dev = {}
+  Dev = {"ResetOnRaise"}
 INIT Init
 NEXT Next
 CONSTRAINT Emit
